@@ -1260,7 +1260,9 @@ func (db *DB) Repair(of Object) (err error) {
 		return
 	}
 
-	if uuids, err = uuidsFromDir(dir); err != nil {
+	// a directory which is gone holds no object file (control sees it
+	// this way too): every entry has to go
+	if uuids, err = uuidsFromDir(dir); err != nil && !os.IsNotExist(err) {
 		return
 	}
 
